@@ -73,6 +73,9 @@ func (m *c01Mon) fallback(p any, err error) (any, error) {
 	if vNondet[bool]("fbFail") {
 		m.state = c01Dead
 		m.endErr = vNewErr()
+		if vNondet[bool]("fbFailWithValue") {
+			return m.fbTok, m.endErr // an error is an error, whatever else is returned
+		}
 		return nil, m.endErr
 	}
 	m.state = c01FbOK
